@@ -7,5 +7,104 @@
 namespace vf { namespace c10 {
 void register_unit_families() { register_group_b(); }
 uint64_t random_cases(bool thorough) { return thorough ? 150000 : 1500; }
-std::vector<Extra>& extras() { static std::vector<Extra> x; return x; }
+// ---------------------------------------------------------------- frequent items: images synthesised from the documented layout
+// byte0 preLongs (1 empty, 4) 1 serVer=1 2 family=10 3 lgMaxMapSize 4 lgCurMapSize 5 flags 6-7 unused | u32 numActive u32 unused |
+// W totalWeight | W offset | W weights[] | items[]
+// "due to a mistake different bits were used in C++ and Java to indicate empty sketch therefore both are set and checked for
+// compatibility with historical binary format" (frequent_items_sketch.hpp): flags 0x01 (older C++), 0x04 (older Java) and 0x05
+// all denote an empty sketch.
+template<typename T> static void wr_item(Wr& w, const T& v);
+template<> void wr_item<int64_t>(Wr& w, const int64_t& v) { w.u64(uint64_t(v)); }
+template<> void wr_item<std::string>(Wr& w, const std::string& v) { w.u32(uint32_t(v.size())); w.b += v; }
+
+template<typename T> static void legacy_fi_empty(uint8_t flags, int rep) {
+  const uint8_t lg_max = uint8_t(3 + rep * 4), lg_cur = uint8_t(3 + rep);
+  Wr w; w.u8(1).u8(1).u8(10).u8(lg_max).u8(lg_cur).u8(flags).u16(0);
+  const std::string tn = sizeof(T) == 8 ? "int64" : "string";
+  for (int stream = 0; stream < 2; ++stream) {
+    const std::string P = stream ? "stream" : "bytes";
+    const std::string key = "legacy|fi|empty-flags-0x0" + std::to_string(flags) + "|" + tn + "|" + P + "|";
+    try {
+      const auto s = FiFam<T>::read(w.b, stream != 0);
+      VF_CHECK(s.is_empty() && s.get_num_active_items() == 0 && s.get_total_weight() == 0 && s.get_maximum_error() == 0, key + "not-empty", "");
+      const std::string re = FiFam<T>::write(s, false);
+      const Fi<T> d = decode_fi<T>(re.data(), re.size());
+      VF_CHECK(d.empty && d.lg_max == lg_max && d.lg_cur == lg_cur, key + "map-sizes", "lg_max=" + std::to_string(d.lg_max) + " lg_cur=" + std::to_string(d.lg_cur));
+      VF_CHECK(std::fabs(s.get_epsilon() - 3.5 / double(1u << lg_max)) < 1e-15, key + "epsilon", str(s.get_epsilon()));
+    } catch (const std::exception& e) { checked(); fail(key + "deserialize-threw", e.what()); }
+    count("legacy_fi_empty_" + P);
+  }
+  sig(img_hash(w.b) + flags);
+}
+
+template<typename T> static void legacy_fi_nonempty(int rep) {
+  Rng r(0xF1 + rep);
+  const uint8_t lg_max = uint8_t(4 + rep), lg_cur = uint8_t(3 + (rep & 1));
+  const uint32_t n = 1 + uint32_t(r.below((1u << lg_cur) * 3 / 4));
+  const uint64_t offset = rep == 0 ? 0 : 5 + r.below(50);
+  std::vector<T> items; std::vector<uint64_t> wts; std::set<T> seen; uint64_t total = offset * 3;
+  while (items.size() < n) { Rng ir(r.next()); T it = GenItem<T>::make(ir, 1ULL << 30); if (seen.insert(it).second) { items.push_back(it); wts.push_back(1 + r.below(1000)); total += wts.back(); } }
+  Wr w; w.u8(4).u8(1).u8(10).u8(lg_max).u8(lg_cur).u8(0).u16(0).u32(n).u32(0).u64(total).u64(offset);
+  for (uint64_t x : wts) w.u64(x);
+  for (const T& it : items) wr_item<T>(w, it);
+  const std::string tn = sizeof(T) == 8 ? "int64" : "string";
+  for (int stream = 0; stream < 2; ++stream) {
+    const std::string P = stream ? "stream" : "bytes";
+    const std::string key = "legacy|fi|synthesised-nonempty|" + tn + "|" + P + "|";
+    try {
+      const auto s = FiFam<T>::read(w.b, stream != 0);
+      VF_CHECK(!s.is_empty() && s.get_num_active_items() == n && s.get_total_weight() == total && s.get_maximum_error() == offset, key + "counts", "");
+      bool ok = true;
+      for (size_t i = 0; i < n; ++i) ok = ok && s.get_lower_bound(items[i]) == wts[i] && s.get_estimate(items[i]) == wts[i] + offset && s.get_upper_bound(items[i]) == wts[i] + offset;
+      VF_CHECK(ok, key + "item-weights", "n=" + std::to_string(n));
+    } catch (const std::exception& e) { checked(); fail(key + "deserialize-threw", e.what()); }
+    count("legacy_fi_nonempty_" + P);
+  }
+  sig(img_hash(w.b));
+}
+
+// ---------------------------------------------------------------- count-min: images synthesised from the documented layout
+// byte0 preLongs=2 1 serVer=1 2 family=18 3 flags (bit0 empty) 4-7 unused | u32 numBuckets u8 numHashes u16 seedHash u8 unused |
+// [W totalWeight | W cells[numHashes*numBuckets]]   (an empty sketch is the 16-byte preamble alone)
+static void legacy_countmin(int rep) {
+  Rng r(0xC3 + rep);
+  const uint64_t seed = rep & 1 ? 12345 : DEFAULT_SEED;
+  const uint8_t nh = uint8_t(1 + rep % 4); const uint32_t nb = 3 + uint32_t(r.below(40));
+  const bool empty = rep < 2;
+  std::vector<uint64_t> cells; uint64_t total = 0;
+  Wr w; w.u8(2).u8(1).u8(18).u8(empty ? 1 : 0).u32(0).u32(nb).u8(nh).u16(ref_seed_hash(seed)).u8(0);
+  if (!empty) { total = 1000 + r.below(1000); w.u64(total); for (uint32_t i = 0; i < uint32_t(nh) * nb; ++i) { cells.push_back(r.below(500)); w.u64(cells.back()); } }
+  for (int stream = 0; stream < 2; ++stream) {
+    const std::string P = stream ? "stream" : "bytes";
+    const std::string key = std::string("legacy|countmin|synthesised-") + (empty ? "empty" : "nonempty") + "|" + P + "|";
+    try {
+      const auto s = CmFam<uint64_t>::read(w.b, stream != 0, seed);
+      VF_CHECK(s.get_num_hashes() == nh && s.get_num_buckets() == nb && s.get_seed() == seed, key + "shape", "");
+      VF_CHECK(s.is_empty() == empty && s.get_total_weight() == total, key + "weight-or-empty", "");
+      std::vector<uint64_t> got(s.begin(), s.end());
+      if (empty) cells.assign(size_t(nh) * nb, 0);
+      VF_CHECK(got == cells, key + "cells-row-major", "");
+    } catch (const std::exception& e) { checked(); fail(key + "deserialize-threw", e.what()); }
+    count("legacy_countmin_" + P);
+  }
+  sig(img_hash(w.b));
+}
+
+std::vector<Extra>& extras() {
+  static std::vector<Extra> x;
+  static bool init = false;
+  if (!init) {
+    init = true;
+    for (uint8_t fl : {uint8_t(1), uint8_t(4), uint8_t(5)}) for (int rep = 0; rep < 2; ++rep) {
+      x.push_back(Extra{"legacy fi empty int64", [fl, rep]() { legacy_fi_empty<int64_t>(fl, rep); }});
+      x.push_back(Extra{"legacy fi empty string", [fl, rep]() { legacy_fi_empty<std::string>(fl, rep); }});
+    }
+    for (int rep = 0; rep < 4; ++rep) {
+      x.push_back(Extra{"legacy fi nonempty int64", [rep]() { legacy_fi_nonempty<int64_t>(rep); }});
+      x.push_back(Extra{"legacy fi nonempty string", [rep]() { legacy_fi_nonempty<std::string>(rep); }});
+      x.push_back(Extra{"legacy countmin", [rep]() { legacy_countmin(rep); }});
+    }
+  }
+  return x;
+}
 } }
